@@ -12,9 +12,12 @@
 (*       ignD     name in options.ignore_dir                                 *)
 (*       tdir     tests_pattern(name)            (a directory of tests)      *)
 (*       py       name ends with ".py"                                       *)
-(*       stemT    tests_pattern(name without ".py")                          *)
-(*       stemF    test_file_pattern(name without ".py")                      *)
+(*       cext     name ends with the compiled extension this interpreter     *)
+(*                accepts under --usecompiled (".pyc"; ".pyo" under -O)      *)
+(*       stemT    tests_pattern(name without its ".py" / compiled extension) *)
+(*       stemF    test_file_pattern(name without that extension)             *)
 (*       init     name = "__init__.py"                                       *)
+(*       initc    name = "__init__" + the compiled extension of cext         *)
 (*       comp     name[-4:] in {".pyc", ".pyo"}                              *)
 (*       sib      the name with its last character removed (x.pyc -> x.py)   *)
 (*       pyc      name = "__pycache__"                                       *)
@@ -25,6 +28,10 @@
 (*   walk / walkPkg : the directories walked - the roots, or with --package the *)
 (*             package directories; walkT[i]: tests_pattern matches the      *)
 (*             walked directory's own name                                   *)
+(*   usecompiled : --usecompiled given ("compiled Python files can be used   *)
+(*             instead: a directory containing __init__.pyc is also a        *)
+(*             package, and if XYZ.py is absent while XYZ.pyc exists the     *)
+(*             compiled file is used"); keep : -k or --usecompiled            *)
 (* I-spec = transcription of find_test_files_ / walk_with_symlinks /         *)
 (* find_test_files / find_suites / remove_stale_bytecode.                    *)
 EXTENDS Naturals, Sequences, FiniteSets, SequencesExt, FiniteSetsExt, Filter
@@ -39,13 +46,23 @@ ByRank(T, S) == SetToSortSeq(S, LAMBDA a, b : NF(T, a).rank < NF(T, b).rank)
 (* directories os.walk descends into after both prunings *)
 Descend(T, d) == {x \in Kids(T, d, "dir") : ~NF(T, x).ignD /\ NF(T, x).ident /\ ~NF(T, x).ignF}
 
+(* x.py beside x.pyc / x.pyo (only regular files count) *)
+HasSibling(T, f) == \E g \in Kids(T, E(T, f).parent, "file") : E(T, g).name = NF(T, f).sib
+
+(* --usecompiled: a compiled file may stand in for a module's source.  One    *)
+(* module is one test module: where the source is present it is the file     *)
+(* that counts and the compiled file beside it is not a second candidate.    *)
+Candidate(T, f) == \/ NF(T, f).py
+                   \/ T.usecompiled /\ NF(T, f).cext /\ ~HasSibling(T, f)
+HasInit(T, d) == \E f \in Kids(T, d, "file") : NF(T, f).init \/ (T.usecompiled /\ NF(T, f).initc)
+
 IsTestsDir(T, d, rootIdx) ==
   /\ IF d = T.walk[rootIdx] THEN T.walkT[rootIdx] ELSE NF(T, d).tdir
-  /\ \E f \in Kids(T, d, "file") : NF(T, f).init
+  /\ HasInit(T, d)
 
 FilesFound(T, d, rootIdx) ==
   ByRank(T, {f \in Kids(T, d, "file") :
-               /\ NF(T, f).py
+               /\ Candidate(T, f)
                /\ \/ NF(T, f).stemT
                   \/ (IsTestsDir(T, d, rootIdx) /\ NF(T, f).stemF)})
 
@@ -62,10 +79,12 @@ Dedup(s, k, seen) == IF k > Len(s) THEN <<>>
 (* find_test_files: every search root walked in order, de-duplicated by path *)
 (* (the path alone: a file reached through a plain search path and through a *)
 (* --package-path entry is still one file)                                   *)
-Found(T) == Dedup(FlattenSeq([i \in 1..Len(T.walk) |-> Walk(T, T.walk[i], i)]), 1, {})
+Walks(T) == [i \in 1..Len(T.walk) |-> Walk(T, T.walk[i], i)]
+Found(T) == Dedup(FlattenSeq(Walks(T)), 1, {})
 (* the walk that yielded the file first decides its package ("" for --path /  *)
 (* --test-path entries, the given name for --package-path entries)            *)
-FoundVia(T, f) == LET S == {i \in 1..Len(T.walk) : \E k \in 1..Len(Walk(T, T.walk[i], i)) : Walk(T, T.walk[i], i)[k] = f}
+FoundVia(T, f) == LET W == Walks(T)
+                      S == {i \in 1..Len(W) : \E k \in 1..Len(W[i]) : W[i][k] = f}
                   IN CHOOSE i \in S : \A j \in S : i <= j
 PkgOf(T, f) == T.walkPkg[FoundVia(T, f)]
 
@@ -77,7 +96,8 @@ Depth(T, x) == IF x = "" THEN 0 ELSE 1 + Depth(T, E(T, x).parent)
 RECURSIVE Under(_, _, _)
 Under(T, x, r) == IF x = r THEN TRUE ELSE IF x = "" THEN FALSE ELSE Under(T, E(T, x).parent, r)
 NamingRoot(T, f) ==
-  LET cands == {i \in 1..Len(T.roots) : Under(T, E(T, f).parent, T.roots[i]) /\ T.rootPkg[i] = PkgOf(T, f)}
+  LET pk == PkgOf(T, f)
+      cands == {i \in 1..Len(T.roots) : Under(T, E(T, f).parent, T.roots[i]) /\ T.rootPkg[i] = pk}
   IN CHOOSE i \in cands : \A j \in cands : Depth(T, T.roots[j]) <= Depth(T, T.roots[i])
 (* T.mpats = the --module list (signs), T.mmatch[f][r] = which patterns are    *)
 (* found in f's dotted name relative to root r                                *)
@@ -87,8 +107,9 @@ AcceptedAs(T, f, r) == Len(T.mpats) = 0 \/ Accept(T.mpats, T.mmatch[f][r])
 (* a file none of whose names is accepted must not be (the statement does    *)
 (* not say which name counts, so the zone in between is a don't-care)        *)
 Accepted(T, f) == AcceptedAs(T, f, T.roots[NamingRoot(T, f)])
-AcceptedAny(T, f) == \E i \in 1..Len(T.roots) :
-                        /\ Under(T, E(T, f).parent, T.roots[i]) /\ T.rootPkg[i] = PkgOf(T, f)
+AcceptedAny(T, f) == LET pk == PkgOf(T, f)
+                     IN \E i \in 1..Len(T.roots) :
+                        /\ Under(T, E(T, f).parent, T.roots[i]) /\ T.rootPkg[i] = pk
                         /\ AcceptedAs(T, f, T.roots[i])
 (* I-spec: find_suites tries the prefixes longest first and imports the file *)
 (* under the first name the --module filter accepts                          *)
@@ -97,6 +118,10 @@ MustImport(T) == SelectSeq(Found(T), LAMBDA f : Accepted(T, f))
 
 (* sanity properties of the definition itself (checked by TLC on a family)  *)
 NoDup(s) == \A a, b \in 1..Len(s) : a # b => s[a] # s[b]
+(* "each is loaded once": no module is found both as source and as compiled  *)
+(* file (two files, one module name)                                         *)
+OneFilePerModule(T, s) == \A a, b \in 1..Len(s) :
+   ~(E(T, s[a]).parent = E(T, s[b]).parent /\ NF(T, s[a]).sib = E(T, s[b]).name)
 
 (* ---- C15: remove_stale_bytecode ------------------------------------------*)
 (* directories the cleanup walk enters: only --ignore_dir and __pycache__    *)
@@ -106,7 +131,6 @@ CleanDirs(T, d) ==
   {d} \cup UNION {CleanDirs(T, x) : x \in {y \in Kids(T, d, "dir") : ~NF(T, y).ignD /\ ~NF(T, y).pyc}}
 Searched(T) == UNION {CleanDirs(T, T.roots[i]) : i \in 1..Len(T.roots)}
 
-HasSibling(T, f) == \E g \in Kids(T, E(T, f).parent, "file") : E(T, g).name = NF(T, f).sib
 IsOrphan(T, f) == E(T, f).kind = "file" /\ NF(T, f).comp /\ ~HasSibling(T, f)
 
 (* what the code removes (I-spec) and the safety envelope of the statement  *)
